@@ -133,6 +133,41 @@ def hostile_scenario(dll, seed, maxlen=60):
     return sc
 
 
+def alphabet_points(dll, tier):
+    """(b1) the hostile alphabet of the TLC model (exported from the specification by TLC itself) injected after
+    EVERY bus frame of a running transfer (and before it), singly and - thorough - in pairs"""
+    from vlib import tlc
+    fd = dll == "j1939-22"
+    mod = "MC_Tp22_c07" if fd else "MC_Tp21_c07"
+    adv = tlc.evaluate(mod, "SetToSeq(MC_Adv)", base_cfg=mod + ".cfg", tag="adv" + dll[-2:])
+    adv = sorted(adv, key=lambda f: (f["to"], f["id"], f["data"]))
+    size = 121 if fd else 15
+    base = {"dll": dll, "nodes": [node("A", [0x10], 1000, 2), node("B", [0x20], 1000, 1)],
+            "sends": [send(0, "A", 0x10, 0xD0, 0x20, size, salt=1)], "dur": 3_000_000}
+    _, sim0 = scen.run(dict(base, expect={"all": True, "idle": True}))
+    frame_times = sorted(set(e["t"] for e in sim0.trace if e["ev"] == "tx"))
+    points = [-500] + [t + 1 for t in frame_times] + [frame_times[-1] + 400_000, frame_times[-1] + 1_300_000]
+    out = []
+    t_probe = 9_000_000
+    fin = [send(t_probe + 200_000, "A", 0x10, 0xD0, 0x20, size + 1, salt=90),
+           send(t_probe + 200_000, "B", 0x20, 0xD3, 0x10, size + 2, salt=91)]
+    import itertools
+    singles = [(f,) for f in adv]
+    combos = singles if tier == "quick" else singles + list(itertools.product(adv, adv))
+    for combo in combos:
+        for pi, pt in enumerate(points):
+            if len(combo) == 2 and (pi % 3):        # pairs: every third point
+                continue
+            inj = []
+            for j, f in enumerate(combo):
+                inj.append({"t": 1000 + pt + j * 2, "node": f["to"], "id": f["id"], "data": f["data"], "fd": fd})
+            sc = dict(base, sends=[dict(base["sends"][0], t=1000)] + fin, inject=inj, hostile=True,
+                      timers=[{"t": t_probe, "node": "A", "delta": 50_000}], dur=5_000_000,
+                      expect={"all": False, "idle": True, "must": [2, 3], "accept": [2, 3], "bus": False, "dm": False})
+            out.append(sc)
+    return out
+
+
 def nontrivial(tr):
     return sum(1 for e in tr["ev"] if e["ev"] == "ptx") >= 1 and \
         any(e["ev"] in ("tx",) for e in tr["ev"])
@@ -158,6 +193,7 @@ def run(chk, replay):
     n = 150 if quick else 2500
     for dll, spec in (("j1939-21", "Tp21Trace"), ("j1939-22", "Tp22Trace")):
         scs = [hostile_scenario(dll, chk.seed * 1000003 + i, 60 if i % 4 else 8) for i in range(n)]
+        scs += alphabet_points(dll, chk.tier)
         traces = [scen.run(sc)[0] for sc in scs]
         chk.validate(spec + ".tla", spec + ".cfg", traces, "h" + dll[-2:], nontrivial=nontrivial)
 
